@@ -463,4 +463,55 @@ theorem buildAll_spec (l target : Dims) (ds : List Dims) (r : Raw) (hr : r.lengt
         rw [h3 k hk', acceptedSum_cons]
         simp
 
+/-! ### the manager a block starts from -/
+
+theorem computeNextDims_shape (r : Raw) (targets denoms mins : Dims) (since : Nat) (ds : List Nat) (out : Raw)
+    (h : computeNextDims r targets denoms mins since ds = some out) :
+    ∃ sts : List DimState, out = encodeDims sts ∧ sts.length = ds.length ∧ ∀ s ∈ sts, s.consumed = 0 := by
+  induction ds generalizing out with
+  | nil =>
+    simp only [computeNextDims] at h
+    injection h with h; subst h
+    exact ⟨[], rfl, rfl, by simp⟩
+  | cons d rest ih =>
+    unfold computeNextDims at h
+    split at h
+    · cases h
+    · rename_i p nw _
+      split at h
+      · cases h
+      · rename_i tail htail
+        injection h with h; subst h
+        obtain ⟨sts, h1, h2, h3⟩ := ih tail htail
+        refine ⟨{ price := p, window := nw, consumed := 0 } :: sts, by simp [encodeDims, h1], by simp [h2], ?_⟩
+        intro s hs
+        rcases List.mem_cons.mp hs with rfl | hs
+        · rfl
+        · exact h3 s hs
+
+theorem computeNext_consumed_zero (r : Raw) (t : Int) (targets denoms mins : Dims) (r' : Raw)
+    (h : computeNext r t targets denoms mins = some r') :
+    r'.length = rawWords ∧ ∀ k, k < feeDimensions → lastConsumed r' k = 0 := by
+  unfold computeNext at h
+  simp only at h
+  split at h
+  · cases h
+  · rename_i ds hds
+    injection h with h; subst h
+    obtain ⟨sts, h1, h2, h3⟩ := computeNextDims_shape _ _ _ _ _ _ _ hds
+    subst h1
+    match sts, h2, h3 with
+    | [s0, s1, s2, s3, s4], _, h3 =>
+      have e0 := h3 s0 (by simp); have e1 := h3 s1 (by simp); have e2 := h3 s2 (by simp)
+      have e3 := h3 s3 (by simp); have e4 := h3 s4 (by simp)
+      refine ⟨by simp [encodeDims, encodeDim, rawWords, feeDimensions, dimWords, windowSize], ?_⟩
+      intro k hk
+      have hk' : k = 0 ∨ k = 1 ∨ k = 2 ∨ k = 3 ∨ k = 4 := by simp only [feeDimensions] at hk; omega
+      rcases hk' with rfl | rfl | rfl | rfl | rfl
+      · exact e0
+      · exact e1
+      · exact e2
+      · exact e3
+      · exact e4
+
 end HyperModel.UnitsProofs
